@@ -7,6 +7,7 @@ use serde_json::{Value, json};
 mod sql;
 mod col;
 mod compact;
+mod corrupt;
 
 fn le_u32(b: &[u8]) -> u32 { let mut a = [0u8; 4]; a[..b.len().min(4)].copy_from_slice(&b[..b.len().min(4)]); u32::from_le_bytes(a) }
 fn le_i32(b: &[u8]) -> i32 { le_u32(b) as i32 }
@@ -242,6 +243,7 @@ fn search(unit: &str, depth: usize) -> Value {
             }
         }
         "column" => return col::column(depth),
+        "sqlcorrupt" => return corrupt::corrupt(depth),
         "sqlcompact" => return compact::compact(depth),
         "sqlddl" => return sql::ddl(depth),
         "sqlexpr" => return sql::expr(depth),
